@@ -37,7 +37,7 @@ FLOORS = {
               'kind:Choice': 50, 'kind:LA': 50, 'kind:NLA': 50, 'kind:Named': 50, 'kind:NamedList': 50,
               'kind:Over': 50, 'kind:Const': 50, 'kind:Void': 50, 'kind:EOF': 50, 'kind:Dot': 50,
               'kind:SkipTo': 50, 'kind:Empty': 50, 'kind:Call': 50, 'kind:Tok': 50, 'kind:Pat': 50,
-              'kind:Group': 50, 'kind:Seq': 50, 'textroute_cases': 100},
+              'kind:Group': 50, 'kind:Seq': 50, 'textroute_cases': 100, 'sugar:include': 100, 'sugar:based_rule': 100},
     'thorough': {'accepted_unflagged': 400000, 'textroute_cases': 1000},
 }
 
@@ -120,13 +120,38 @@ def run_shard(desc, acc):
         run_exhaustive(desc, acc)
 
 
+def add_sugar(rng, g, F, acc):
+    """rule includes and based rules; REF evaluates their documented expansions (include = the included rule's
+    right-hand side in place; `r < base` = base's right-hand side followed by r's own)"""
+    leaf = G.gen_exp(rng, 1, [], dict(F, cut=False), list(G.PATS))
+    rules = [g.rules[0], L.Rule('bs', leaf)] + list(g.rules[1:])
+    k = rng.random()
+    if k < 0.5 and len(rules) > 2:
+        i = rng.randrange(2, len(rules))
+        r = rules[i]
+        rules[i] = L.Rule(r.name, r.body, r.decorators, r.params, r.kwparams, base='bs')
+        acc.count('sugar:based_rule')
+    else:
+        i = rng.randrange(2, len(rules)) if len(rules) > 2 and rng.random() < 0.7 else 0
+        r = rules[i]
+        body = L.Seq((L.Include('bs'), L.Group(r.body))) if rng.random() < 0.5 else L.Seq((L.Group(r.body), L.Include('bs')))
+        rules[i] = L.Rule(r.name, G.normalise(body), r.decorators, r.params, r.kwparams, r.base)
+        if i == 0:
+            # an include must follow the included rule: move the start rule after `bs`, keep it the start by name
+            rules = [rules[1], rules[0]] + rules[2:]
+        acc.count('sugar:include')
+    return L.Grammar(rules, dict(g.directives), tuple(g.keywords))
+
+
 def run_random(desc, acc):
     for i in range(desc['n']):
         rng = random.Random(h64('C01', desc['seed'], desc['shard'], i))
         F = feature_set(rng)
         g = G.gen_grammar(rng, F, max_rules=5 if rng.random() < 0.3 else 3, pats=list(G.PATS))
+        if rng.random() < 0.2:
+            g = add_sugar(rng, g, F, acc)
         route = 'text' if i % desc['text_every'] == 0 else 'object'
-        starts = [g.rules[0].name]
+        starts = ['start' if any(r.name == 'start' for r in g.rules) else g.rules[0].name]
         if len(g.rules) > 1 and rng.random() < 0.4:
             starts.append(rng.choice(g.rules[1:]).name)
         for start in starts:
